@@ -322,6 +322,7 @@ func checkC13(c *Check) {
 	// nothing but Close is ever called on a rejected connection: handled by the Write check above and C03.1
 	c.connUsesInbound("C13.2 reject-paths")
 	c.capturedVarDiscipline("C13.4 every-listener-served")
+	c.notificationReachesManager("C13.3 hold-down-entered")
 }
 
 // connUsesInbound: in handleInboundConn and incomingConnection the conn
